@@ -35,6 +35,7 @@ import (
 	"github.com/mgtv-tech/redis-GunYu/pkg/log"
 	"github.com/mgtv-tech/redis-GunYu/pkg/redis/checkpoint"
 	"github.com/mgtv-tech/redis-GunYu/pkg/redis/client"
+	usync "github.com/mgtv-tech/redis-GunYu/pkg/sync"
 	"github.com/mgtv-tech/redis-GunYu/pkg/vfdoubles"
 	"github.com/mgtv-tech/redis-GunYu/pkg/vfutil"
 )
@@ -121,6 +122,19 @@ func vfC17MDo(t *testing.T, s *vfutil.Session, c *vfC17MCase, tag int, src strin
 		ws = append(ws, i)
 		lines = append(lines, l)
 	}
+	// EVERY request of the switch that writes (also the frontier / latest / journal / index / marker
+	// keys of both namespaces, which the model does not follow) is a crash point of the next-start monitor
+	reads := map[string]bool{"select": true, "info": true, "exists": true, "hget": true, "hgetall": true, "zrangebyscore": true,
+		"ping": true, "type": true, "hlen": true, "zcard": true, "get": true}
+	var allWs []int
+	var allLines []string
+	for i := seedLen; i < len(log); i++ {
+		if !reads[log[i].Cmd()] {
+			allWs = append(allWs, i)
+			allLines = append(allLines, log[i].String())
+		}
+	}
+	s.Add("migrate_all_requests", len(allWs))
 	sp := []string{checkpoint.VfStartPoint(vfdoubles.Replay(log[:seedLen], 0), c.ids)}
 	for _, w := range ws {
 		sp = append(sp, checkpoint.VfStartPoint(vfdoubles.Replay(log[:w+1], 0), c.ids))
@@ -190,10 +204,10 @@ func vfC17MDo(t *testing.T, s *vfutil.Session, c *vfC17MCase, tag int, src strin
 		cl.Close()
 		if known && merr == nil {
 			if before, ok := bstart(t0, c.old, cur); ok {
-				for k := 0; k <= len(ws); k++ {
+				for k := 0; k <= len(allWs); k++ {
 					cut := seedLen
 					if k > 0 {
-						cut = ws[k-1] + 1
+						cut = allWs[k-1] + 1
 					}
 					tk := vfdoubles.Replay(log[:cut], 0)
 					c2 := checkpoint.VfConn(tk)
@@ -213,7 +227,10 @@ func vfC17MDo(t *testing.T, s *vfutil.Session, c *vfC17MCase, tag int, src strin
 					if err2 != nil || !ok2 || after < before {
 						req := "-"
 						if k > 0 {
-							req = lines[k-1]
+							req = allLines[k-1]
+							if len(req) > 160 {
+								req = req[:160] + "…"
+							}
 						}
 						s.Violate("migrate-next-start-regresses", fmt.Sprintf("the bidirectional start resumed at %d (namespace mode %s); stopped after request #%d (%s), the next start (switch to %s completed, then StartPoint) resumes at %d (ok=%v, err=%v) [%s]", before, cur, k, req, c.desired, after, ok2, err2, kind),
 							map[string]interface{}{"op": op, "crash_after_request": k, "before": before, "after": after})
@@ -543,5 +560,272 @@ func TestVerifC17GcSender(t *testing.T) {
 	n := vfutil.Scale(60, 1500)
 	for i := 0; i < n; i++ {
 		vfC17GcSender(t, s, vfC17GcSenderGen(r.Fork()), "gen")
+	}
+}
+
+// ------------------------------------------------------------ the production path of "move to a new replication id"
+//
+// After a source failover a restarted syncer does NOT relabel the stored position (commit 23cb23d):
+// syncer.updateCheckpoint orders the ids by the checkpoint hash and runs UpdateCheckpoint(local, ordered);
+// only a granted continuation relabels it: RedisOutput.SetRunId(new id). Then the replay writes its
+// checkpoint fields under the new id, and later the source stops reporting the old id.
+// This harness runs the REAL syncer.updateCheckpoint (it dials: the target double sits behind a
+// loopback listener), the REAL RedisOutput.SetRunId and the REAL RedisOutput.StartPoint:
+//   start:   updateCheckpoint(local, [new, old])  -> label; StartPoint = position P
+//   relabel: SetRunId(new) — every request prefix is a crash point; the next start
+//            (updateCheckpoint + StartPoint with [new, old]) must read a position >= P in the same database
+//   replay:  the sender's checkpoint fields under the new id advance the position to P' (same database)
+//   later:   the source reports [new, other]: the next start must read P'.
+
+type vfStCase struct {
+	local, key string // key the hash maps the old id to (== local, or a rename is pending too)
+	oldId      string
+	newId      string
+	dbs        []int
+	top        int64
+	noMtime    bool
+	busy       []int
+}
+
+func (c *vfStCase) op() string {
+	return fmt.Sprintf("c17st local=%s key=%s old=%s new=%s dbs=%s top=%d nomtime=%v busy=%s", vfutil.HexS(c.local), vfutil.HexS(c.key), c.oldId, c.newId,
+		checkpoint.VfInts(c.dbs), c.top, c.noMtime, checkpoint.VfInts(c.busy))
+}
+
+// the real next start against a target state: syncer.updateCheckpoint (dials) + RedisOutput.StartPoint
+func vfC17RealStart(tg *vfdoubles.Target, local string, ids []string) (string, string) {
+	ln := checkpoint.VfListen(tg)
+	defer ln.Close()
+	rc := checkpoint.VfDialCfg(ln.Addr().String())
+	sy := &syncer{cfg: SyncerConfig{Output: rc}, logger: log.WithLogger("[vf] ")}
+	wait := usync.NewWaitCloser(nil)
+	label, err := sy.updateCheckpoint(wait, local, ids)
+	if err != nil {
+		return "err:" + err.Error(), ""
+	}
+	ro := NewRedisOutput(RedisOutputConfig{InputName: "vf", CheckpointName: local, RunId: label, EnableResumeFromBreakPoint: true, Redis: checkpoint.VfRedisCfg()})
+	ro.newRedisConn = func(ctx context.Context) (client.Redis, error) { return checkpoint.VfConn(tg), nil }
+	sp, err := ro.StartPoint(context.Background(), ids)
+	if err != nil {
+		return "err:" + err.Error(), label
+	}
+	if sp.RunId != ids[0] && sp.RunId != ids[1] {
+		return "none", label
+	}
+	return fmt.Sprintf("%d@%d", sp.Offset, sp.DbId), label
+}
+
+func vfC17Start(t *testing.T, s *vfutil.Session, c *vfStCase, src string) {
+	ids := []string{c.newId, c.oldId}
+	tg := vfdoubles.NewTarget()
+	st := &checkpoint.VfState{Busy: c.busy}
+	st.Hash = append(st.Hash, [2]string{c.oldId, c.key})
+	for i, d := range c.dbs {
+		var fs [][2]string
+		if !c.noMtime {
+			fs = append(fs, [2]string{c.oldId + "_mtime", strconv.FormatInt(1700000000000000000-int64(i), 10)})
+		}
+		fs = append(fs, [2]string{c.oldId + "_runid", c.oldId}, [2]string{c.oldId + "_version", config.Version}, [2]string{c.oldId + "_offset", strconv.FormatInt(c.top-int64(i)*50, 10)})
+		st.Items = append(st.Items, checkpoint.VfItem{Db: d, Key: c.key, Fields: fs})
+	}
+	st.Seed(tg)
+	s.Count("start_" + src)
+	rep := func(extra map[string]interface{}) map[string]interface{} {
+		m := map[string]interface{}{"op": c.op()}
+		for k, v := range extra {
+			m[k] = v
+		}
+		return m
+	}
+	ge := func(a, b string) bool { // a >= b, same database
+		pa, pb := strings.Split(a, "@"), strings.Split(b, "@")
+		if len(pb) != 2 {
+			return true
+		}
+		if len(pa) != 2 || pa[1] != pb[1] {
+			return false
+		}
+		x, _ := strconv.ParseInt(pa[0], 10, 64)
+		y, _ := strconv.ParseInt(pb[0], 10, 64)
+		return x >= y
+	}
+	want := fmt.Sprintf("%d@%d", c.top, c.dbs[0])
+	// 1. restart after the failover, before any continuation
+	p0, label := vfC17RealStart(tg, c.local, ids)
+	if !ge(p0, want) {
+		s.Violate("start-loses-position", fmt.Sprintf("stored %s under the previous id; the restart (updateCheckpoint + StartPoint, ids [new, old]) reads %s", want, p0), rep(nil))
+		return
+	}
+	if label != c.oldId {
+		s.Count("start_relabelled_at_restart")
+	}
+	// 2. a continuation is granted: SetRunId(new id); every request prefix is a crash point
+	ro := NewRedisOutput(RedisOutputConfig{InputName: "vf", CheckpointName: c.local, RunId: label, EnableResumeFromBreakPoint: true, Redis: checkpoint.VfRedisCfg()})
+	ro.newRedisConn = func(ctx context.Context) (client.Redis, error) { return checkpoint.VfConn(tg), nil }
+	n1 := tg.LogLen()
+	if err := ro.SetRunId(context.Background(), c.newId); err != nil {
+		s.Violate("setrunid-fails", err.Error(), rep(nil))
+		return
+	}
+	log := tg.LogCopy()
+	for i := n1; i < len(log); i++ {
+		if _, ok := checkpoint.VfRenderWrite(log[i]); !ok {
+			continue
+		}
+		tk := vfdoubles.Replay(log[:i+1], 0)
+		pk, _ := vfC17RealStart(tk, c.local, ids)
+		tk.CloseAll()
+		s.Count("start_crash_points")
+		if !ge(pk, p0) {
+			s.Violate("setrunid-loses-position", fmt.Sprintf("position %s before SetRunId(new id); stopped after its request #%d (%s) the next start reads %s", p0, i-n1+1, log[i].String(), pk),
+				rep(map[string]interface{}{"crash_after_request": i - n1 + 1, "before": p0, "after": pk}))
+			return
+		}
+	}
+	// 3. the replay goes on under the new id (what sendCmdsBatch writes), in the database of the position
+	d, _ := strconv.Atoi(strings.Split(p0, "@")[1])
+	tg.Seed(d, "hset", c.local, c.newId+"_runid", c.newId, c.newId+"_version", config.Version)
+	tg.Seed(d, "hset", c.local, c.newId+"_offset", strconv.FormatInt(c.top+500, 10))
+	want2 := fmt.Sprintf("%d@%d", c.top+500, d)
+	p2, _ := vfC17RealStart(vfdoubles.Replay(tg.LogCopy(), 0), c.local, ids)
+	if !ge(p2, want2) {
+		s.Violate("position-under-new-id-unreadable", fmt.Sprintf("after SetRunId the replay stored %s under the new id; a restart (ids [new, old]) reads %s", want2, p2), rep(nil))
+		return
+	}
+	// 4. the source no longer reports the old id
+	other := "eeeeeeeeeeeeeeeeeeeeeeeeeeeeeeeeeeeeeeee"
+	p3, _ := vfC17RealStart(vfdoubles.Replay(tg.LogCopy(), 0), c.local, []string{c.newId, other})
+	if !ge(p3, want2) {
+		s.Violate("position-lost-when-old-id-is-gone", fmt.Sprintf("the replay stored %s under the new id; once the source stops reporting the old id a restart (ids [new, other]) reads %s", want2, p3), rep(nil))
+		return
+	}
+	tg.CloseAll()
+	s.Distinct(fmt.Sprintf("st|%v|%d|%v|%d", c.local == c.key, len(c.dbs), c.noMtime, c.dbs[0]))
+}
+
+func vfC17StartGen(r *vfutil.Rand) *vfStCase {
+	c := &vfStCase{local: config.CheckpointKey, oldId: fmt.Sprintf("%x", r.Bytes(20)), newId: fmt.Sprintf("%x", r.Bytes(20)), top: int64(r.Range(1000, 900000)), noMtime: r.Chance(1, 2)}
+	c.key = c.local
+	if r.Chance(1, 4) {
+		c.key = config.CheckpointKey + "-{06S}" // the key name changes as well (topology change)
+	}
+	dbs := []int{0, 0, 1, 2, 5}
+	n := r.Range(1, 3)
+	seen := map[int]bool{}
+	for len(c.dbs) < n {
+		d := dbs[r.Intn(len(dbs))]
+		if !seen[d] {
+			seen[d] = true
+			c.dbs = append(c.dbs, d)
+		}
+	}
+	if r.Bool() {
+		c.busy = []int{r.Range(3, 9)}
+	}
+	return c
+}
+
+func vfC17StartParse(op string) *vfStCase {
+	if !strings.HasPrefix(op, "c17st ") {
+		return nil
+	}
+	kv := map[string]string{}
+	for _, tok := range strings.Fields(op)[1:] {
+		if i := strings.IndexByte(tok, '='); i > 0 {
+			kv[tok[:i]] = tok[i+1:]
+		}
+	}
+	top, _ := strconv.ParseInt(kv["top"], 10, 64)
+	return &vfStCase{local: string(vfutil.UnHex(kv["local"])), key: string(vfutil.UnHex(kv["key"])), oldId: kv["old"], newId: kv["new"],
+		dbs: checkpoint.VfUnInts(kv["dbs"]), top: top, noMtime: kv["nomtime"] == "true", busy: checkpoint.VfUnInts(kv["busy"])}
+}
+
+// The harnesses that cannot import this package (pkg/redis/checkpoint, cmd) judge "the next start" with
+// checkpoint.VfNextStart, a transcription of syncer.updateCheckpoint + StartPoint. It is tied to the
+// original here: on arbitrary bookkeeping states both must read the same position and leave the same state.
+func vfC17TieNextStart(s *vfutil.Session, r *vfutil.Rand) {
+	ids := []string{fmt.Sprintf("%x", r.Bytes(20)), fmt.Sprintf("%x", r.Bytes(20))}
+	if r.Chance(1, 8) {
+		ids[1] = ids[0]
+	}
+	pool := []string{ids[0], ids[1], fmt.Sprintf("%x", r.Bytes(20))}
+	keys := []string{config.CheckpointKey, config.CheckpointKey + "-{06S}"}
+	st := &checkpoint.VfState{}
+	for _, id := range pool {
+		if r.Chance(1, 2) {
+			st.Hash = append(st.Hash, [2]string{id, keys[r.Intn(2)]})
+		}
+	}
+	for _, d := range []int{0, 1, 3} {
+		for _, k := range keys {
+			if !r.Chance(1, 3) {
+				continue
+			}
+			var fs [][2]string
+			for _, id := range pool {
+				if !r.Chance(1, 2) {
+					continue
+				}
+				if r.Chance(2, 3) {
+					fs = append(fs, [2]string{id + "_mtime", strconv.FormatInt(1700000000000000000+int64(r.Intn(5)), 10)})
+				}
+				if r.Chance(4, 5) {
+					fs = append(fs, [2]string{id + "_runid", id}, [2]string{id + "_version", config.Version})
+				}
+				if r.Chance(4, 5) {
+					fs = append(fs, [2]string{id + "_offset", strconv.FormatInt(int64(r.Range(-1, 5000)), 10)})
+				}
+			}
+			if len(fs) > 0 {
+				st.Items = append(st.Items, checkpoint.VfItem{Db: d, Key: k, Fields: fs})
+			}
+		}
+	}
+	tg := vfdoubles.NewTarget()
+	st.Seed(tg)
+	seed := tg.LogCopy()
+	t1, t2 := vfdoubles.Replay(seed, 0), vfdoubles.Replay(seed, 0)
+	real, _ := vfC17RealStart(t1, config.CheckpointKey, ids)
+	if strings.HasPrefix(real, "err") {
+		real = "err"
+	}
+	copyRes := checkpoint.VfNextStart(t2, config.CheckpointKey, ids)
+	dump := func(t *vfdoubles.Target) string { // the modification times written now differ between the two runs
+		st := checkpoint.VfDumpState(t)
+		for i := range st.Items {
+			for j, f := range st.Items[i].Fields {
+				if v, _ := strconv.ParseInt(f[1], 10, 64); strings.HasSuffix(f[0], "_mtime") && v > 1750000000000000000 {
+					st.Items[i].Fields[j][1] = "now"
+				}
+			}
+		}
+		return st.Encode()
+	}
+	d1, d2 := dump(t1), dump(t2)
+	tg.CloseAll()
+	t1.CloseAll()
+	t2.CloseAll()
+	s.Count("tie_next_start")
+	if real != copyRes || d1 != d2 {
+		s.Violate("harness-next-start-differs", fmt.Sprintf("syncer.updateCheckpoint + RedisOutput.StartPoint read %s, the harness transcription VfNextStart reads %s (states equal: %v)", real, copyRes, d1 == d2),
+			map[string]interface{}{"state": st.Encode(), "ids": ids})
+	}
+}
+
+func TestVerifC17Start(t *testing.T) {
+	s := vfutil.NewSession("C17st")
+	defer s.Close()
+	r := vfutil.NewRand(vfutil.Seed())
+	for i, n := 0, vfutil.Scale(150, 3000); i < n; i++ {
+		vfC17TieNextStart(s, r.Fork())
+	}
+	for _, l := range vfutil.Corpus("C17") {
+		if c := vfC17StartParse(l); c != nil {
+			vfC17Start(t, s, c, "corpus")
+		}
+	}
+	n := vfutil.Scale(60, 1500)
+	for i := 0; i < n; i++ {
+		vfC17Start(t, s, vfC17StartGen(r.Fork()), "gen")
 	}
 }
